@@ -7,6 +7,12 @@ WriteRecordHeader consults a stale errno only in quiet mode).
 
 (B) real pbind / plist vs the Lean model (Model/PBind.lean, Model/PList.lean) - target bytes, exit status,
     printed byte counts, stdout bytes.
+    Filter options: every pbind run hands its -f/+f options (environment variable BINDCMD first, then the command
+    line) to the Lean model of CMD_FilterList's ARRAY (Model/FilterList.lean, generated capacity) and to the documented
+    SET (Spec/FilterSet.lean); Props/C07_Filter.lean proves array = set within the capacity.  Filter probes: a code file
+    with one one-byte record per header id 1..255 run through pbind / p2bin / p2hex under generated option sequences
+    (duplicates, removals of absent / first / last entries, up to the capacity, via *CMD variables) - the ids the real
+    tool selects vs the model's array (B) and vs the documented set (C).
 (C) the Lean SPEC on the real output: parseFile(target) = filtered concatenation of parseFile(inputs);
     every plist line read back by words = the record's family/segment/start/length/last address; totals.
 """
@@ -171,10 +177,153 @@ def gen_filter(rng, fams_present, stats):
     return argv, ";".join(ops), (",".join(str(v) for v in sorted(cur)) if cur else "-")
 
 
+def split_env(rng, argv, stats):
+    """moves the first k options into the tool's *CMD environment variable (processed before the command line)"""
+    if not argv or rng.random() >= 0.3:
+        return "", argv
+    k = rng.randrange(1, len(argv) // 2 + 1)
+    stats["flt_via_env"] = stats.get("flt_via_env", 0) + 1
+    return " ".join(argv[:2 * k]), argv[2 * k:]
+
+
+# ---- filter probes: which header ids does the real tool select under an option sequence?
+PROBE_IDS = list(range(1, 256))
+
+
+def probe_file(fill):
+    """one one-byte data record per header id, at address = id, long headers, granularity 1"""
+    items = b"".join(bytes([0x81, i, 1, 1]) + struct.pack("<IH", i, 1) + bytes([fill]) for i in PROBE_IDS)
+    return b"\x89\x14" + items + b"\x00" + b"AS probe"
+
+
+def gen_probe(rng, idx, cap, stats):
+    """returns dict(kind, ops=[(neg, [vals])])"""
+    kind = ["random", "random", "random", "small-pool", "near-cap", "full-cap", "last-entry"][idx % 7]
+    if idx == 0:
+        kind = "overflow"          # cap + 2 distinct ids: known finding filter-list-overflow while FilterBytes[] is unchecked
+    elif idx == 1:
+        kind = "narrowed"          # an id above 255: known finding filter-id-narrowed
+    ops = []
+    if kind == "overflow":
+        ops = [(False, list(range(1, cap + 3)))]
+    elif kind == "narrowed":
+        ops = [(False, [256 + 0x51])]
+    elif kind in ("random", "small-pool"):
+        pool = rng.sample(PROBE_IDS, rng.choice([2, 3, 5])) if kind == "small-pool" else PROBE_IDS
+        have = []
+        for _ in range(rng.choice([1, 2, 3, 4, 6])):
+            neg = rng.random() < 0.4
+            vals = []
+            for _ in range(rng.choice([1, 1, 2, 3, 5, 8])):
+                r = rng.random()
+                if have and r < (0.7 if neg else 0.2):
+                    vals.append(rng.choice([have[0], have[-1], rng.choice(have)]))
+                else:
+                    vals.append(rng.choice(pool))
+            ops.append((neg, vals))
+            for v in vals:
+                if neg and v in have:
+                    have[have.index(v)] = have[-1]
+                    have.pop()
+                elif not neg and v not in have:
+                    have.append(v)
+    elif kind in ("near-cap", "full-cap"):
+        n = cap if kind == "full-cap" else rng.randrange(max(1, cap - 3), cap + 1)
+        ids = rng.sample(PROBE_IDS, min(n, len(PROBE_IDS)))
+        cut = rng.randrange(1, len(ids)) if len(ids) > 1 else 1
+        ops = [(False, ids[:cut]), (False, ids[cut:] + [ids[0]])]          # a duplicate at the full array
+        gone = [ids[-1], ids[0]] + rng.sample(ids, min(3, len(ids)))
+        ops.append((True, gone + [rng.choice(PROBE_IDS)]))
+        fresh = [x for x in PROBE_IDS if x not in ids]
+        k = len(set(gone)) if kind == "full-cap" else min(len(set(gone)), 2)
+        ops.append((False, rng.sample(fresh, min(k, len(fresh)))))      # refill, stays within the capacity (full-cap: up to it again)
+    elif kind == "last-entry":
+        ids = rng.sample(PROBE_IDS, rng.choice([1, 2, 3, 4]))
+        ops = [(False, ids), (True, [ids[-1]])]
+        if rng.random() < 0.5:
+            ops.append((True, [ids[0]] if rng.random() < 0.5 else list(ids)))     # possibly empties the list: no filter
+        if rng.random() < 0.5:
+            ops.append((False, [rng.choice(PROBE_IDS)]))
+    stats["probe_kinds"][kind] = stats["probe_kinds"].get(kind, 0) + 1
+    return dict(kind=kind, ops=ops)
+
+
+def exec_probe(bdir, wd, tool, envs, argv2):
+    """the real tool on the probe file; returns (status, selected ids or None, output tail)"""
+    d = os.path.join(wd, "probe")
+    shutil.rmtree(d, ignore_errors=True)
+    os.makedirs(d)
+    open(os.path.join(d, "all.p"), "wb").write(probe_file(0x00 if tool != "pbind" else 0x5a))
+    var = {"pbind": "BINDCMD", "p2bin": "P2BINCMD", "p2hex": "P2HEXCMD"}[tool]
+    if tool == "pbind":
+        args = ["all.p", "out.p"] + argv2
+    elif tool == "p2bin":
+        args = ["all.p", "out.bin", "-q", "-r", "0-255", "-l", "255"] + argv2
+    else:
+        args = ["all.p", "out.hex", "-q", "-F", "Moto", "-r", "0-255"] + argv2
+    rc, so, se = common.run_tool(bdir, tool, args, d, timeout=30, env={var: envs})
+    sel = None
+    if rc == 0:
+        try:
+            if tool == "pbind":
+                sel = [it.cpu for it in _probe_items(open(os.path.join(d, "out.p"), "rb").read())]
+            elif tool == "p2bin":
+                img = open(os.path.join(d, "out.bin"), "rb").read()
+                sel = [i for i, x in enumerate(img) if x == 0 and i > 0]
+            else:
+                sel = []
+                for ln in open(os.path.join(d, "out.hex")).read().split():
+                    if ln.startswith("S1") and len(ln) >= 10:
+                        a = int(ln[4:8], 16)
+                        sel += list(range(a, a + int(ln[2:4], 16) - 3))
+        except (OSError, ValueError, IndexError):
+            sel = None
+    return rc, sel, (so + se)[-300:]
+
+
+def run_probe(bdir, wd, rng, idx, probe, stats):
+    """runs the real tool; returns (status, selected ids or None, tool, env string, argv)"""
+    tool = ["pbind", "p2bin", "p2hex"][idx % 3]
+    argv = []
+    for neg, vals in probe["ops"]:
+        argv += ["+f" if neg else "-f", ",".join((fmt_val(rng, v) if idx % 2 else str(v)) for v in vals)]
+    envs, argv2 = split_env(rng, argv, stats)
+    # DecodeLine keeps the environment string in a String: stay well below STRINGSIZE
+    if len(envs) > 200:
+        envs, argv2 = "", argv
+    rc, sel, tail = exec_probe(bdir, wd, tool, envs, argv2)
+    stats["probe_tools"][tool] = stats["probe_tools"].get(tool, 0) + 1
+    return rc, sel, tool, envs, argv2, tail
+
+
+class _It:
+    def __init__(self, cpu):
+        self.cpu = cpu
+
+
+def _probe_items(fb):
+    """records of a pbind target made from the probe file (short or long headers, one byte each)"""
+    pos, out = 2, []
+    while fb[pos] != 0:
+        if fb[pos] == 0x81:
+            out.append(_It(fb[pos + 1]))
+            pos += 4 + 6 + (fb[pos + 8] | fb[pos + 9] << 8)
+        elif fb[pos] < 0x80:
+            out.append(_It(fb[pos]))
+            pos += 1 + 6 + (fb[pos + 5] | fb[pos + 6] << 8)
+        else:
+            raise ValueError("unexpected header %02x" % fb[pos])
+    return out
+
+
+def ops_str(ops):
+    return ";".join(("n:" if neg else "f:") + ",".join(str(v) for v in vals) for neg, vals in ops) or "-"
+
+
 def new_stats():
     return dict(records=0, short_in=0, long_in=0, long_but_short_eligible_in=0, zero_len=0, len_ge_8192=0, len_65535=0, max_len=0, entries=0,
                 reloc_items=0, fams=set(), segs=set(), grans=set(), flt_none=0, flt_plain=0, flt_with_negation=0, flt_emptied=0,
-                files_per_case={}, env={}, empty_creator_files=0)
+                files_per_case={}, env={}, empty_creator_files=0, flt_via_env=0, probe_kinds={}, probe_tools={})
 
 
 def gen_case(rng, idx, stats, tier):
@@ -189,10 +338,11 @@ def gen_case(rng, idx, stats, tier):
         files.append((items, creator))
     fams = sorted({it[1] for items, _ in files for it in items if it[0] == "D"})
     argv, ops, sset = gen_filter(rng, fams, stats)
+    fenv, argv = split_env(rng, argv, stats)
     env = rng.choice(["nonquiet", "nonquiet", "quiet-clean", "quiet-stale"])
     stats["env"][env] = stats["env"].get(env, 0) + 1
     stats["files_per_case"][nfiles] = stats["files_per_case"].get(nfiles, 0) + 1
-    return dict(tag="gen:%d" % idx, files=[ser_file(i, c) for i, c in files], fargv=argv, ops=ops, sset=sset, env=env,
+    return dict(tag="gen:%d" % idx, files=[ser_file(i, c) for i, c in files], fargv=argv, fenv=fenv, ops=ops, sset=sset, env=env,
                 reloc=reloc, has_relocinfo=any(it[0] == "I" for items, _ in files for it in items),
                 desc=[[(it[0],) + tuple(x if not isinstance(x, bytes) else len(x) for x in it[1:]) for it in items] for items, _ in files])
 
@@ -222,7 +372,7 @@ def run_pbind(bdir, wd, msgdir, case):
         errno0 = ENOENT          # opencatalog() tries the current directory first: fopen fails with ENOENT
     # options may stand anywhere on the command line
     args = args + case["fargv"] + (["-q"] if quiet else [])
-    rc, so, se = common.run_tool(bdir, "pbind", args, cwd, timeout=60)
+    rc, so, se = common.run_tool(bdir, "pbind", args, cwd, timeout=60, env={"BINDCMD": case.get("fenv", "")})
     tp = os.path.join(d, "out.p")
     target = open(tp, "rb").read() if os.path.exists(tp) else None
     sums = None
@@ -294,7 +444,8 @@ def run(args):
     distinct = set()
     counts = dict(pbind_runs=0, plist_runs=0, pbind_status={}, plist_status={}, items_in=0, items_out=0, short_headers_out=0,
                   plist_record_lines_checked=0, plist_total_lines_checked=0, plist_on_pbind_output=0, plist_multi_file=0,
-                  spec_na=0, model_stuck=0, plist_timeouts=0)
+                  spec_na=0, model_stuck=0, plist_timeouts=0, probe_runs=0, probe_status={}, probe_refused=0, probe_ids_compared=0,
+                  model_outside_capacity=0, filter_cnt_max=0, inputs_with_skipped_records_spec_checked=0)
     with common.Workdir("c07") as wd:
         msgdir = os.path.join(wd, "msgcwd")
         os.makedirs(msgdir)
@@ -354,6 +505,37 @@ def run(args):
                     lreq.append("%d %s %s" % (prc, common.hexs(pso) if pso else "-",
                                               " ".join("%s %s" % (common.hexs(n.encode()), common.hexs(fb)) for n, fb in zip(ns, fbs))))
                     lmeta.append((case["tag"], ns, fbs, prc, pso))
+        # filter probes
+        cap = _filter_capacity()
+        n_probes = {"quick": 90, "thorough": 1500}[args.tier]
+        prng = common.rng_for(args.seed, PROP + "/probe")
+        freq, fmeta = [], []
+        for pi in range(n_probes):
+            probe = gen_probe(prng, pi, cap, stats)
+            rc, sel, tool, envs, argv2, tail = run_probe(bdir, wd, prng, pi, probe, stats)
+            counts["probe_runs"] += 1
+            counts["probe_status"][str(rc)] = counts["probe_status"].get(str(rc), 0) + 1
+            meta = dict(tag="probe:%d" % pi, tool="filter-probe", real_tool=tool, kind=probe["kind"], ops=ops_str(probe["ops"]), envs=envs,
+                        var={"pbind": "BINDCMD", "p2bin": "P2BINCMD", "p2hex": "P2HEXCMD"}[tool],
+                        args={"pbind": ["all.p", "out.p"], "p2bin": ["all.p", "out.bin", "-q", "-r", "0-255", "-l", "255"],
+                              "p2hex": ["all.p", "out.hex", "-q", "-F", "Moto", "-r", "0-255"]}[tool] + argv2)
+            over = len({v & 0xff for neg, vals in probe["ops"] if not neg for v in vals}) > cap
+            if not isinstance(rc, int) or rc < 0 or (rc == 0 and sel is None):
+                spec_fail.append(dict(meta, sig=("filter-list-overflow" if over else None), selected=[],
+                                      why="%s crashed, hung or wrote no readable output under these -f/+f options: status %s %s" % (tool, rc, tail.decode("latin-1"))))
+                continue
+            if rc != 0:
+                # a clean refusal (e.g. a repaired tool rejecting a list beyond the capacity) keeps the property; anything else is reported
+                if over and rc == 1:
+                    counts["probe_refused"] += 1
+                else:
+                    spec_fail.append(dict(meta, sig=None, selected=[], why="%s exit status %s under valid -f/+f options: %s" % (tool, rc, tail.decode("latin-1"))))
+                continue
+            meta["selected"] = sel
+            freq.append("%s %s" % (meta["ops"], ",".join(map(str, sel)) or "-"))
+            fmeta.append(meta)
+            distinct.add((tool, meta["ops"], envs))
+        fans = common.driver("c07-filter", freq, timeout=3600) if drv_ok and freq else []
         pans = common.driver("c07-pbind", preq, timeout=3600) if drv_ok and preq else []
         lans = common.driver("c07-plist", lreq, timeout=3600) if drv_ok and lreq else []
 
@@ -365,19 +547,49 @@ def run(args):
         counts["items_in"] += int(a.get("nin", 0))
         counts["items_out"] += int(a.get("nout", 0))
         counts["short_headers_out"] += int(a.get("short", 0))
+        counts["inputs_with_skipped_records_spec_checked"] += int(a.get("skipfiles", 0)) if a.get("spec") == "ok" else 0
         if len(samples) < 3 and a.get("spec") == "ok" and int(a.get("nout", 0)) >= 2:
             samples.append(dict(tool="pbind", tag=case["tag"], env=case["env"], filter=case["fargv"], records=case.get("desc"), verdict={k: v for k, v in a.items() if k != "mtarget"}))
         if a["spec"] == "na":
             counts["spec_na"] += 1
+            k = "spec_na_pbind_" + ("reloc" if case.get("reloc") else "plain")
+            counts[k] = counts.get(k, 0) + 1
+            if case.get("reloc") and len(samples) < 8:
+                samples.append(dict(tool="pbind-spec-na", tag=case["tag"], records=case.get("desc")))
         if a["spec"] == "bad":
             spec_fail.append(dict(tag=case["tag"], tool="pbind", sig=classify_pbind(case, a, quiet, errno0),
                                   why="spec on real pbind output: " + a.get("why", "?"), case=_case_json(case), pbind_status=rc))
-        if a["model"] == "stuck":
+        counts["filter_cnt_max"] = max(counts["filter_cnt_max"], int(a.get("cnt", 0)))
+        if a.get("sset") == "ne":
+            corr_fail.append(dict(tag=case["tag"], tool="pbind", why="the set the harness computed for these options differs from the Lean SPEC set (keepByOptions)", case=_case_json(case)))
+        if a["model"] == "outside":
+            counts["model_outside_capacity"] += 1
+        elif a["model"] == "stuck":
             counts["model_stuck"] += 1
             corr_fail.append(dict(tag=case["tag"], tool="pbind", why="model has no outcome for this input (outside the model)", case=_case_json(case)))
         elif a["model"] != "eq" or a["sums"] == "ne":
             corr_fail.append(dict(tag=case["tag"], tool="pbind", why="real pbind differs from the model: model=%s sums=%s mstatus=%s real status=%s" % (a["model"], a["sums"], a.get("mstatus"), rc),
                                   case=_case_json(case), model_target=a.get("mtarget", "")[:2000]))
+    for meta, ans in zip(fmeta, fans):
+        a = kv(ans)
+        if "model" not in a:
+            proof_problems.append("driver c07-filter rejected a request (%s): %s" % (meta["tag"], ans[:100]))
+            continue
+        counts["probe_ids_compared"] += 255
+        counts["filter_cnt_max"] = max(counts["filter_cnt_max"], int(a.get("cnt", 0)))
+        if len(samples) < 6 and meta["kind"] in ("near-cap", "small-pool") and not any(s_.get("tool") == "filter-probe" for s_ in samples):
+            samples.append(dict(meta, selected=meta["selected"][:12], verdict=a))
+        if a["spec"] == "bad":
+            sig = None
+            if a.get("arr") == "overflow":
+                sig = "filter-list-overflow"
+            elif any(v > 255 for o in meta["ops"].split(";") if o != "-" for v in map(int, o[2:].split(","))):
+                sig = "filter-id-narrowed"
+            spec_fail.append(dict(meta, sig=sig, why="%s selects other header ids than the documented set of its -f/+f options (first difference: %s)" % (meta["real_tool"], a.get("why"))))
+        if a["model"] == "outside":
+            counts["model_outside_capacity"] += 1
+        elif a["model"] != "eq":
+            corr_fail.append(dict(meta, why="the ids %s selects differ from FilterOK over the model's array" % meta["real_tool"]))
     for (tag, ns, fbs, prc, pso), ans in zip(lmeta, lans):
         a = kv(ans)
         if "model" not in a:
@@ -402,23 +614,31 @@ def run(args):
     spec_fail += late_fail
     res.coverage = common.proof_coverage(audit, PROP, [
         "translate/tables.py: Granularity table, fileformat.h constants, FileID, BufferSize, Creator, SegNames, FindFamilyById table, plist messages (compiled dumpers), "
-        "WriteRecordHeader ChkIO-on-success flags (behaviour probe), plist totals format literal (clang AST)",
-        "correspondence: real pbind/plist vs Model.PBind/Model.PList on harness-written code files (differential test)"])
+        "WriteRecordHeader ChkIO-on-success flags (behaviour probe), plist totals format literal (clang AST), capacity of FilterBytes[] (clang AST)",
+        "correspondence: real pbind/plist vs Model.PBind/Model.PList on harness-written code files (differential test)",
+        "correspondence: ids selected by real pbind/p2bin/p2hex under -f/+f sequences vs Model.FilterList (differential test); ConstLongInt's number syntax and cmdarg.c's option splitting are not modelled (the harness hands the values to the model)"])
     dist = {k: (sorted(v) if isinstance(v, set) else v) for k, v in stats.items()}
     dist.update(counts)
     dist["corpus_cases"] = ncorpus
     res.coverage.update(
-        evaluations=len(preq) + len(lreq), distinct_nontrivial=len(distinct),
+        evaluations=len(preq) + len(lreq) + len(freq), distinct_nontrivial=len(distinct),
         rule="one evaluation = one real pbind or plist run compared with the model and checked by the spec; distinct by (input file bytes, filter options, quiet/errno class); "
-             "non-trivial = every case has at least one input file with the magic and an end record; record/length/header-form distribution below",
+             "non-trivial = every case has at least one input file with the magic and an end record; record/length/header-form distribution below; "
+             "a filter probe = one real pbind/p2bin/p2hex run on the 255-record probe file, all 255 ids compared with the array model and the documented set",
         samples=samples, distribution=dist)
     res.assumptions = ["errno at OpenTarget is ENOENT when the *.msg catalogues are not in the current directory and 0 when they are (measured with strace; opencatalog tries the cwd first)",
                        "family id 0 and segment numbers >= SegCount, granularity 0, relocation info are outside the quantifier (not generated, or compared with the model only)"]
-    return common.conclude(res, proof_problems, spec_fail, corr_fail, len(preq) + len(lreq))
+    return common.conclude(res, proof_problems, spec_fail, corr_fail, len(preq) + len(lreq) + len(freq))
+
+
+def _filter_capacity():
+    """capacity of FilterBytes[] as the translator extracted it for this run (Generated/Tools.lean)"""
+    m = re.search(r"def filterBytesCap : Nat := (\d+)", open(os.path.join(common.LEAN_DIR, "AslModel", "Generated", "Tools.lean")).read())
+    return int(m.group(1)) if m else 100
 
 
 def _case_json(case):
-    return dict(files=[common.hexs(f) for f in case["files"]], fargv=case["fargv"], ops=case["ops"], sset=case["sset"], env=case["env"],
+    return dict(files=[common.hexs(f) for f in case["files"]], fargv=case["fargv"], fenv=case.get("fenv", ""), ops=case["ops"], sset=case["sset"], env=case["env"],
                 records=case.get("desc"))
 
 
@@ -429,17 +649,26 @@ def replay(args):
     with common.Workdir("c07r") as wd:
         if d.get("tool") == "pbind" and "case" in d:
             c = d["case"]
-            case = dict(files=[bytes.fromhex(x) for x in c["files"]], fargv=c["fargv"], ops=c["ops"], sset=c["sset"], env=c["env"])
+            case = dict(files=[bytes.fromhex(x) for x in c["files"]], fargv=c["fargv"], fenv=c.get("fenv", ""), ops=c["ops"], sset=c["sset"], env=c["env"])
             msgdir = os.path.join(wd, "msgcwd")
             os.makedirs(msgdir)
             for f in os.listdir(bdir):
                 if f.endswith(".msg"):
                     shutil.copy(os.path.join(bdir, f), msgdir)
             rc, target, sums, errno0, quiet, so, se, dd, names = run_pbind(bdir, wd, msgdir, case)
-            print("pbind %s -> status %s, target %s bytes" % (" ".join(names + ["out.p"] + case["fargv"] + (["-q"] if quiet else [])), rc, len(target) if target is not None else None))
+            print("BINDCMD='%s' pbind %s -> status %s, target %s bytes" % (case["fenv"], " ".join(names + ["out.p"] + case["fargv"] + (["-q"] if quiet else [])), rc, len(target) if target is not None else None))
             print((so + se).decode("latin-1")[-600:])
             if isinstance(rc, int) and rc >= 0:
                 print(common.driver("c07-pbind", [pbind_request(case, rc, target, sums, errno0, quiet)])[0][:400])
+        elif d.get("tool") == "filter-probe":
+            print("probe file: one record per header id 1..255 (address = id, one byte); reproduce with:")
+            print("  %s=%r %s %s" % (d["var"], d["envs"], d["real_tool"], " ".join(d["args"])))
+            print("options in processing order: %s" % d["ops"])
+            rc, sel, tail = exec_probe(bdir, wd, d["real_tool"], d["envs"], [x for x in d["args"] if x not in ("all.p", "out.p", "out.bin", "out.hex")][{"pbind": 0, "p2bin": 5, "p2hex": 5}[d["real_tool"]]:])
+            print("status %s, header ids selected by the real tool now: %s (recorded: %s)" % (rc, sel, d.get("selected")))
+            print(tail.decode("latin-1"))
+            if sel is not None:
+                print(common.driver("c07-filter", ["%s %s" % (d["ops"], ",".join(map(str, sel)) or "-")])[0][:400])
         elif d.get("tool") == "plist" and "files" in d:
             ns = d["names"]
             fbs = [bytes.fromhex(x) for x in d["files"]]
